@@ -78,6 +78,10 @@ class Runner:
         self.preempt = scn.get("cfg", {}).get("preempt", 0)
         self.k.on_idle.append(self.idle_hook)
         self.w.on_kill.append(self.on_proc_killed)
+        if scn.get("cfg", {}).get("c14"):
+            from .c14 import check_params
+
+            self.w.on_spawn.append(lambda jp: check_params(self, jp))
         self.extra_idle = []
         self.status = None
 
@@ -88,7 +92,8 @@ class Runner:
         return self.global_trace
 
     def global_trace(self, frame, event, arg):
-        if frame.f_code.co_filename in TRACED:
+        code = frame.f_code
+        if code.co_filename in TRACED and code.co_name != "<module>":
             return self.local_trace
         return None
 
@@ -182,7 +187,9 @@ class Runner:
         self.pids[i] = proc.pid
         st = self.states[i] = ProcState()
         k.log("proc-start", index=i, pid=proc.pid, kind=kind)
-        main = {"sched": self.sched_main, "cli": self.cli_main, "audit": self.audit_main}[kind]
+        st.variant = spec.get("variant", "old")
+        main = {"sched": self.sched_main, "cli": self.cli_main, "audit": self.audit_main,
+                "deprecate": self.deprecate_main, "fix": self.fix_main}[kind]
         proc.main_actor = k.spawn("C:%d" % proc.pid, lambda: main(proc, spec, st), proc.pid, "caller")
         crash = spec.get("crash")
         if crash:
@@ -262,7 +269,10 @@ class Runner:
         from . import simtasks as S
 
         t = self.scn["tasks"][x]
-        cls = {"leaf": S.Leaf, "node": S.Node, "wtask": S.WTask, "wnode": S.WNode}[t.get("kind", "leaf")]
+        kind = t.get("kind", "leaf")
+        if kind.startswith("dep-"):
+            return self.build_dep(st, x, kind), []
+        cls = {"leaf": S.Leaf, "node": S.Node, "wtask": S.WTask, "wnode": S.WNode}[kind]
         kwargs = {"x": x}
         pre, init, explicit = [], [], []
         for u, emb in t.get("deps", []):
@@ -296,6 +306,24 @@ class Runner:
             task.add_dependencies(self.tok(st, ti).dependency(c))
         return task, init
 
+    def build_dep(self, st, x, kind):
+        """Tasks of the deprecation scenarios: old or new class depending on the process."""
+        from . import simtasks as S
+
+        oldv = getattr(st, "variant", "old") == "old"
+        cfg = (S.OldCfg if oldv else S.NewCfg)
+        if kind == "dep-root":
+            return (S.OldDLeaf if oldv else S.DLeaf)(x=x)
+        if kind == "dep-param":
+            return S.CfgTask(x=x, p=cfg(v=x))
+        if kind == "dep-list":
+            return S.CfgTask(x=x, pl=[S.NewCfg(v=100 + x), cfg(v=x)])
+        if kind == "dep-nested":
+            return S.CfgTask(x=x, ph=S.CfgHolder(c=cfg(v=x)))
+        if kind == "dep-plain":
+            return S.CfgTask(x=x, p=S.NewCfg(v=x))
+        raise AssertionError(kind)
+
     def submit(self, st, x, dup=False):
         k, w = self.k, self.w
         if not dup:
@@ -325,6 +353,11 @@ class Runner:
         if first is None:
             st.obj[x], st.out[x], st.jobs[x] = task, out, job
             w.register_job(x, job)
+            w.jobdir_variant.setdefault(getattr(st, "variant", "old"), {})[x] = str(job.path)
+            if self.scn.get("cfg", {}).get("c14"):
+                from .c14 import on_submit
+
+                on_submit(self, st, x, task)
         else:
             w.jobx[id(job)] = x
             info["same_output"] = out is st.out[x]
@@ -472,6 +505,8 @@ class Runner:
         }
 
     def on_proc_killed(self, proc):
+        if proc.kind == "fix":
+            self.k.log("fix-killed", victim=proc.pid, tree=self.tree_snapshot())
         if proc.kind == "sched" and proc.info.get("xp"):
             self.k.log("index", xp=proc.info["xp"], when="killed", victim=proc.pid,
                        snap=self.index_snapshot(proc.info["xp"]))
@@ -571,6 +606,62 @@ class Runner:
         finally:
             self.finish_proc(proc)
 
+    def tree_snapshot(self):
+        """jobs/ tree: real job folders, symlinks, digests of result files."""
+        import hashlib
+
+        jd = self.w.ws / "jobs"
+        out = {"dirs": {}, "links": {}, "results": {}}
+        if not jd.is_dir():
+            return out
+        for t in sorted(jd.iterdir()):
+            if not t.is_dir():
+                continue
+            for h in sorted(t.iterdir()):
+                rel = "%s/%s" % (t.name, h.name)
+                if h.is_symlink():
+                    out["links"][rel] = os.readlink(h)
+                elif h.is_dir():
+                    out["dirs"][rel] = sorted(p.name for p in h.iterdir())
+                try:
+                    rf = h / "result.txt"
+                    if rf.is_file():
+                        out["results"][rel] = hashlib.sha1(rf.read_bytes()).hexdigest()[:12]
+                except OSError:
+                    pass
+        return out
+
+    def deprecate_main(self, proc, spec, st):
+        """Not a process of the system: the point in the history where the classes become
+        deprecated (a new release of the user's code)."""
+        from . import simtasks as S
+
+        k = self.k
+        for cls in S.DEPRECATABLE:
+            xt = cls.__getxpmtype__()
+            if not xt.deprecated:
+                xt.deprecate()
+        k.log("deprecated", tree=self.tree_snapshot(), olddirs={str(x): d for x, d in self.w.jobdir_variant.get("old", {}).items()})
+        self.w.end_process(proc, 0)
+
+    def fix_main(self, proc, spec, st):
+        from experimaestro.tools.jobs import fix_deprecated
+
+        k = self.k
+        code = 0
+        for op in spec["ops"]:
+            k.log("fix-call", op=op)
+            k.park()
+            exc = None
+            try:
+                fix_deprecated(self.w.ws, op["fix"], op["cleanup"])
+            except Exception as e:
+                exc = "%s: %s" % (type(e).__name__, str(e)[:160])
+                code = 1
+                tb = short_tb(e)
+            k.log("fix-return", op=op, exc=exc, tb=tb if exc else None, tree=self.tree_snapshot())
+        self.w.end_process(proc, code)
+
     def audit_main(self, proc, spec, st):
         k = self.k
         try:
@@ -628,6 +719,8 @@ class Runner:
             "index": {name: self.index_snapshot(name) for name in sorted({p.get("xp") for p in self.scn["procs"] if p.get("xp")})},
             "rels": self.all_rels(),
             "orphans": self.run_orphans() if self.scn.get("cfg", {}).get("orphans") else None,
+            "tree": self.tree_snapshot() if self.scn.get("cfg", {}).get("tree") else None,
+            "jobdir_variant": {v: {str(x): d for x, d in m.items()} for v, m in self.w.jobdir_variant.items()},
         }
 
 
